@@ -2,7 +2,9 @@ import re
 
 from . import operator, xlerrors, func_xltypes
 
-CRITERIA_REGEX = r'(\W*)(.*)'
+# An optional comparison operator followed by the operand (which may start
+# with a sign, so the operator is not simply "all non-word characters").
+CRITERIA_REGEX = r'(<=|>=|<>|<|>|=)?(.*)'
 
 CRITERIA_OPERATORS = {
     '<': operator.OP_LT,
@@ -17,7 +19,7 @@ CRITERIA_OPERATORS = {
 def parse_criteria(criteria):
 
     if isinstance(criteria, (str, func_xltypes.Text)):
-        search = re.search(CRITERIA_REGEX, str(criteria)).group
+        search = re.match(CRITERIA_REGEX, str(criteria), re.DOTALL).group
         str_operator, str_value = search(1), search(2)
 
         operator = CRITERIA_OPERATORS.get(str_operator)
@@ -38,7 +40,17 @@ def parse_criteria(criteria):
             else:
                 break
 
+        ordering = str_operator in ('<', '<=', '>', '>=')
+        value_type = type(func_xltypes.ExcelType.cast_from_native(value))
+
         def check(probe):
+            if ordering:
+                # An ordering criterion only matches cells of the type of
+                # its operand (">5" does not count texts, ">a" no numbers).
+                probe_type = type(
+                    func_xltypes.ExcelType.cast_from_native(probe))
+                if probe_type is not value_type:
+                    return False
             return operator(probe, value)
 
         return check
